@@ -1,11 +1,26 @@
 #!/usr/bin/env python3
-"""Prints the markdown table of seeded changes from /verif/seeded/*/meta.json (used for DESIGN.md section 10)."""
-import json,glob,os
+"""Prints the markdown table of seeded changes from /verif/seeded/*/meta.json (used for DESIGN.md section 10.1)."""
+import json,glob,os,re
 rows=[]
-for d in sorted(glob.glob('/verif/seeded/*')):
-    m=json.load(open(d+'/meta.json'))
-    rows.append((os.path.basename(d),m['property'],m['needs_to_manifest'],m['detection'],m['detected']))
-print("| seeded change | property | needs, to manifest | checks run and outcome | detected |")
-print("|---|---|---|---|---|")
+for d in sorted(glob.glob('/verif/seeded/*/')):
+    m=json.load(open(d+'meta.json'))
+    det=m['detection']
+    note=''
+    if ';; strengthening:' in det:
+        note=det.split(';; strengthening:')[1].strip()
+    elif m['detected']!='first try':
+        note=det
+    sig=re.findall(r'DETECTED (C\d+) \(quick\)[^|;]*?e\.g\. ([^ ;]+)',det)
+    if sig:
+        short='; '.join(sorted(set(f"{p}: `{s}`" for p,s in sig)))[:260]
+    else:
+        short=det[:260]
+    if m['detected']=='first try':
+        outcome='first try — '+short
+    else:
+        outcome='**missed at first** → '+note+' → now '+short if sig else '**missed at first** → '+note
+    rows.append((os.path.basename(d.rstrip('/')),m['needs_to_manifest'],outcome))
+print("| seeded change (`seeded/<id>`) | needs, to manifest | outcome of the quick checks |")
+print("|---|---|---|")
 for r in rows:
-    print("| `%s` | %s | %s | %s | %s |"%r)
+    print("| `%s` | %s | %s |"%tuple(x.replace('|','\\|').replace('\n',' ') for x in r))
